@@ -158,6 +158,9 @@ func shapeCoq(n *parser.ASTNode) (string, error) {
 	return "", fmt.Errorf("operator %d with %d children", op, len(cs))
 }
 
+// hangs seen so far: a hung goroutine keeps spinning, so after a few of them the lexer classes stop
+var lexHangs int
+
 type lexRun struct {
 	toks  []parser.VerifTok
 	ended bool
@@ -184,11 +187,13 @@ func realLex(s string) (lr lexRun, panicked any, hung bool) {
 	case o := <-done:
 		return o.lr, o.p, false
 	case <-time.After(10 * time.Second):
+		lexHangs++
 		return lexRun{}, nil, true
 	}
 }
 
 var lexSeeds = []string{
+	"k:a-b c", "k:a*b c", "k:\"a\"'b' c", "k:a-b-c d and k:e", "t:a_b-c d",
 	`service:"a\"`, `k:'a\'`, `k:"\`, `"`, `'`, "`", `k:"a*`, `k:"a\*`, "k:`a", `k:"a\"b"`, `k:'it\'s'`, `k:"a\"" and k:"b\"`,
 	`k:"\x41\u00e9\U0001F600\101"`, `k:"\777"`, `k:"\q"`, `k:"\U99999999"`, `k:"\ud800"`, `k:"\xff"`, `k:"\x4"`, `k:'\"'`, `k:"\'"`,
 	"# c\nk:v", "k:v # c", "k:v #c\n and k:w", "#", "#\n", "##\n#\nk:v", "k:v#x\n#y\nand k:w", "k:a#b", "k:\"a#b\"",
@@ -289,9 +294,12 @@ func lexCase(w *casefile.Writer, s string, mname string) {
 
 func lexCases(w *casefile.Writer, r *rng.R, n int) {
 	for _, s := range lexSeeds {
+		if lexHangs >= 3 {
+			return
+		}
 		lexCase(w, s, "full")
 	}
-	for i := 0; i < n; i++ {
+	for i := 0; i < n && lexHangs < 3; i++ {
 		mname := "full"
 		switch c := r.Intn(10); {
 		case c < 2:
@@ -338,7 +346,7 @@ func quoteWith(q byte, s string) string {
 }
 
 func roundCases(w *casefile.Writer, r *rng.R, n int) {
-	for i := 0; i < n; i++ {
+	for i := 0; i < n && lexHangs < 3; i++ {
 		var sb strings.Builder
 		var exp []parser.VerifTok
 		space := false
